@@ -819,11 +819,15 @@ class Sql:
             raise Unsupported('DELETE ... IN (SELECT) without a preceding identical SELECT')
         same = (page.stmt['where'] == sub['where'] and page.stmt['order'] == sub['order']
                 and page.stmt['limit'] == sub['limit'] and sub['cols'] == ['rowid'])
-        if not same:
-            raise Unsupported('DELETE ... IN (SELECT) whose select differs from the preceding SELECT')
-        # same parameters?
-        if not all(self._same_param(a, b) for a, b in zip(page.params, params)) or len(page.params) != len(params):
-            raise Unsupported('DELETE ... IN (SELECT) with different parameters')
+        if not same or not all(self._same_param(a, b) for a, b in zip(page.params, params)) or len(page.params) != len(params):
+            # not the statement executed just before (other text or other parameters): the sub-select denotes
+            # its OWN page of the current table -- nothing relates it to the rows fetched earlier
+            if sub['cols'] != ['rowid']:
+                raise Unsupported('DELETE ... IN (SELECT) over other columns than rowid')
+            page2 = self.select_page(it, T, sub, params)
+            st.effect('DELETE_OTHER_PAGE', stmt=ps['text'])
+            self.delete_counted(it, T, page2.member, page2.n, page2)
+            return []
         self.env.use('A-SQL-det: the sub-select of DELETE ... IN (SELECT ... ORDER BY ... LIMIT n) denotes the rows of '
                      'the textually identical SELECT executed just before on the same state')
         self.delete_counted(it, T, page.member, page.n, page)
